@@ -145,8 +145,17 @@ func init() {
 // assumption wherever a harness reaches it; nothing a property asserts may depend on it.
 func init() {
 	zeroInt := func(i *Interp, fr *frame, a []value) value { return int64(0) }
-	for _, n := range []string{"Int", "Intn", "Int31", "Int31n", "Int63", "Int63n", "Uint32", "Uint64"} {
+	for _, n := range []string{"Int", "Int31", "Int63", "Uint32", "Uint64"} {
 		intrinsics["math/rand."+n] = zeroInt
+	}
+	for _, n := range []string{"Intn", "Int31n", "Int63n"} {
+		n := n
+		intrinsics["math/rand."+n] = func(i *Interp, fr *frame, a []value) value {
+			if v, ok := a[0].(int64); ok && v <= 0 {
+				i.runtimePanic(fr, "invalid argument to "+n) // as the real functions do
+			}
+			return int64(0)
+		}
 	}
 	intrinsics["math/rand.Float64"] = func(i *Interp, fr *frame, a []value) value { return float64(0.5) }
 	intrinsics["math/rand.Float32"] = func(i *Interp, fr *frame, a []value) value { return float32(0.5) }
